@@ -287,6 +287,13 @@ def generate(tier):
     # #[derive(Debug)] twins with no parameters (enum: the enum name is off by default, like the std derive)
     for sh in S.struct_shapes(3, with_empty=True) + S.enum_shapes(2, 2) + S.enum_shapes(3, 1, vmin=3):
         add(build_twin(sh))
+    from .common import zoo_cases
+    for c in zoo_cases('C06', 'Debug', 'Clone', 'Debug, Clone',
+                       '    for (i, (a, ta)) in vs.iter().enumerate() {\n'
+                       '        r.ck(format!("{:?}", a) == format!("{:?}", ta), 0, &|| format!("value #{}: {:?} differs from #[derive(Debug)] {:?}", i, format!("{:?}", a), format!("{:?}", ta)));\n'
+                       '        r.ck(format!("{:#?}", a) == format!("{:#?}", ta), 1, &|| format!("value #{}: pretty output differs from #[derive(Debug)]: {:?} vs {:?}", i, format!("{:#?}", a), format!("{:#?}", ta)));\n'
+                       '    }\n'):
+        add(c)
     # generics around the method wrapper, attribute contexts
     for fl in (S.Fields('t', 2), S.Fields('n', 2)):
         for assign in ('ms', 'sm', 'mm', 'xs' if fl.style == 'n' else 'mi', 'im'):
